@@ -151,4 +151,84 @@ theorem dfs_complete (e : String) (g : String → List String) (fuel : Nat) (r :
   intro hcyc
   exact (key e e hcyc (Or.inl rfl)).1 rfl
 
+/-! ### imports: what a schema hands out does not depend on the order in which pass 2 visits the schemas -/
+
+/-- no two partial USE items of a schema share a visible name (part of well-formedness: a second one is a
+    DUPLICATE_DECL unless it is the same object) -/
+def NoDupAlias (f : File) : Prop := ∀ s ∈ f.schemas, ((useItems s).map fun x => x.2.visibleName).Nodup
+
+theorem findSome_key_mem {α β : Type} (key : α → String) (n : String) (h : α → Option β) :
+    ∀ (xs : List α) (o : β), xs.findSome? (fun x => if key x = n then h x else none) = some o →
+      ∃ y ∈ xs, key y = n ∧ h y = some o := by
+  intro xs
+  induction xs with
+  | nil => intro o hh; simp at hh
+  | cons x xs ih =>
+    intro o hh
+    simp only [List.findSome?_cons] at hh
+    split at hh
+    next o' ho' =>
+      by_cases hk : key x = n
+      · simp [hk] at ho'
+        exact ⟨x, by simp, hk, by simpa [← hh] using ho'⟩
+      · simp [hk] at ho'
+    next hnone =>
+      obtain ⟨y, hy, h1, h2⟩ := ih o hh
+      exact ⟨y, by simp [hy], h1, h2⟩
+
+/-- with distinct keys, "first item under that key that resolves" is "the item under that key, if it resolves" -/
+theorem findSome_eq_find {α β : Type} (key : α → String) (n : String) (h : α → Option β) :
+    ∀ (xs : List α), (xs.map key).Nodup → ∀ o,
+      xs.findSome? (fun x => if key x = n then h x else none) = some o →
+      (xs.find? (fun x => key x = n)).bind h = some o := by
+  intro xs
+  induction xs with
+  | nil => intro _ o hh; simp at hh
+  | cons x xs ih =>
+    intro hnd o hh
+    simp only [List.map_cons, List.nodup_cons] at hnd
+    by_cases hk : key x = n
+    · simp only [List.find?_cons, hk, decide_true, Option.bind_some]
+      simp only [List.findSome?_cons, hk, if_true] at hh
+      cases hx : h x with
+      | some o' => simpa [hx] using hh
+      | none =>
+        simp only [hx] at hh
+        obtain ⟨y, hy, h1, _⟩ := findSome_key_mem key n h xs o hh
+        exact absurd (List.mem_map.mpr ⟨y, hy, h1.trans hk.symm⟩) hnd.1
+    · simp only [List.find?_cons, hk, decide_false]
+      simp only [List.findSome?_cons, hk, if_false] at hh
+      exact ih hnd.2 o hh
+
+theorem viaDict_le_viaList (rec : String → String → Option Obj) (t : Schema) (n : String)
+    (nd : ((useItems t).map fun x => x.2.visibleName).Nodup) (o : Obj) (h : viaDict rec t n = some o) :
+    viaList rec t n = some o := by
+  have := findSome_eq_find (fun x : String × Item => x.2.visibleName) n (fun x => rec x.1 x.2.old) (useItems t) nd o h
+  simpa [viaList] using this
+
+theorem exportOf_order_independent (f : File) (hnd : NoDupAlias f) (p₁ p₂ : String → Bool) :
+    ∀ (fuel : Nat), exportOf f true p₁ fuel = exportOf f true p₂ fuel := by
+  intro fuel
+  induction fuel with
+  | zero => rfl
+  | succ fuel ih =>
+    funext T n
+    simp only [exportOf, ih, exportStep]
+    cases hs : findSchema f T with
+    | none => rfl
+    | some t =>
+      simp only [if_true]
+      have nd := hnd t (List.mem_of_find?_eq_some hs)
+      have key : ∀ (p : String → Bool),
+          (if p T = true then viaDict (exportOf f true p₂ fuel) t n else none).or (viaList (exportOf f true p₂ fuel) t n)
+            = viaList (exportOf f true p₂ fuel) t n := by
+        intro p
+        by_cases hp : p T = true
+        · simp only [hp, if_true]
+          cases hA : viaDict (exportOf f true p₂ fuel) t n with
+          | none => simp
+          | some o => simp [viaDict_le_viaList _ t n nd o hA]
+        · simp [hp]
+      rw [key p₁, key p₂]
+
 end StepModel.Express.Resolve
